@@ -234,10 +234,11 @@ type c04Cfg struct {
 	hashName  string
 	padHead   int // exact encoded size of the newest advertisement (0 = natural)
 	asyncMax  int // MaxAsyncConcurrency (0 = unlimited)
+	adsDepth  int64 // AdsDepthLimit (0 = unlimited)
 }
 
 func (c c04Cfg) String() string {
-	return fmt.Sprintf("announce=%v discovery=%v seg=%d retry=%v ads=%d presynced=%d twoLive=%v dead=%d hash=%s asyncMax=%d", c.announce, c.discovery, c.seg, c.retry, c.nAds, c.preSynced, c.twoLive, c.dead, c.hashName, c.asyncMax)
+	return fmt.Sprintf("announce=%v discovery=%v seg=%d retry=%v ads=%d presynced=%d twoLive=%v dead=%d hash=%s asyncMax=%d adsDepth=%d", c.announce, c.discovery, c.seg, c.retry, c.nAds, c.preSynced, c.twoLive, c.dead, c.hashName, c.asyncMax, c.adsDepth)
 }
 
 // c04 enumerated cases: 2 triggers x 2 transports x 2 segmentations, chain of
@@ -298,6 +299,15 @@ func c04Plan(r *simkit.Run, c Cfg, w *World) (c04Cfg, []faultPlan) {
 		if cfg.announce {
 			cfg.asyncMax = tp.Choose(3, "asyncMax")
 		}
+		if tp.Chance(1, 3, "adsDepth?") {
+			// a depth limit; with segmentation on it is at or below the
+			// segment size in half of the cases (the sync then needs one
+			// segment only)
+			cfg.adsDepth = int64(tp.Range(1, 5, "adsDepth"))
+			if cfg.seg > 0 && tp.Chance(1, 2, "adsDepthSmall") {
+				cfg.adsDepth = int64(tp.Range(1, int(cfg.seg), "adsDepthLE"))
+			}
+		}
 		np := 1 + tp.Choose(2, "nfaults")
 		if tp.Chance(1, 6, "manyfaults") {
 			np = tp.Range(3, 5, "nfaultsMany")
@@ -345,6 +355,9 @@ func runFaultSync(r *simkit.Run, c Cfg, mode string, planner planFunc) {
 	}
 	if cfg.asyncMax > 0 {
 		sopts = append([]dagsync.Option{dagsync.MaxAsyncConcurrency(cfg.asyncMax)}, sopts...)
+	}
+	if cfg.adsDepth > 0 {
+		sopts = append(sopts, dagsync.AdsDepthLimit(cfg.adsDepth))
 	}
 	sub := w.NewSubscriber(sopts...)
 	sw := &syncWorld{w: w, pub: pub, sub: sub, lst: &listener{}}
@@ -401,7 +414,7 @@ func runFaultSync(r *simkit.Run, c Cfg, mode string, planner planFunc) {
 	pub.Extend(cfg.nAds - cfg.preSynced)
 	head := pub.Head()
 	latest0 := sub.Latest(pub)
-	expected := expectChain(pub.Ads, len(pub.Ads)-1, latest0, 0)
+	expected := expectChain(pub.Ads, len(pub.Ads)-1, latest0, cfg.adsDepth)
 
 	// Phase 1: the faulty attempt.
 	sw.plans = plans
